@@ -84,6 +84,11 @@ pub fn handle(op: &str, a: &[&str]) -> Option<String> {
             let n = uint_of(n)?;
             Some(show_split(pm1::pm1_impl(&n, u64_of(b1)?, u64_of(b2)? as f64, Verbosity::Silent)))
         }
+        // same run; every prime factor of n is caught at the same stage-2 step (annotation `l`)
+        ("s2_pm1same", [n, b1, b2, ..]) => {
+            let n = uint_of(n)?;
+            Some(show_split(pm1::pm1_impl(&n, u64_of(b1)?, u64_of(b2)? as f64, Verbosity::Silent)))
+        }
         // the strategy functions with their hard-wired (B1, B2) per size of n
         ("s2_pm1_only", [n, ..]) => Some(show_split(pm1::pm1_only(&uint_of(n)?, Verbosity::Silent))),
         ("s2_pm1_quick", [n, ..]) => Some(show_split(pm1::pm1_quick(&uint_of(n)?, Verbosity::Silent))),
